@@ -397,7 +397,9 @@ def pipeline(rec, defs, t):
             if rv.get("k") == "ref" and not rv["place"].get("p"):
                 cur = rv["place"]["l"]           # `&mut it` handed to any / all / position / find
                 continue
-            return None
+            # any other value (a `lo..hi` range, an iterator built elsewhere) is the source: we call next() on it
+            stages.reverse()
+            return stages, cur
         ct = rec["blocks"][d[0]]["term"]
         n = ct.get("callee") or ""
         meth = tail(n)
